@@ -13,6 +13,8 @@ parts
                   definition (week_year, week, weeks in year) == the week-1 model wherever the model is defined
   iso-stdlib  : ISO rule in the ISO calendar == datetime.date.isocalendar() (years 1-9999); from_week_year_week_and_day ==
                 date.fromisocalendar for all (year, week 1-53, weekday), raising exactly when the stdlib rejects.
+  long-history: one shared rule object per rule answers > 1024 distinct week-years in two interleaved calendars, then early years are re-asked
+                (sequential history on per-rule state; thread interleavings on such state belong to C13).
   navigation  : LocalDate.next/previous, DateAdjusters.next/previous/next_or_same/previous_or_same, LocalDateTime.next/previous:
                 every date of the date set x 7 weekdays == brute-force scan on the day-number line (raise iff the range is left).
   nth-weekday : LocalDate.from_year_month_week_and_day(year, month, occurrence 1-5, weekday) == brute-force scan of the month.
@@ -278,6 +280,38 @@ def w_iso_stdlib(job):
     return acc
 
 
+# ------------------------------------------------------------------------------------------------ long history on shared rule objects
+def w_long_history(job):
+    """ONE rule object per rule answers > 1024 distinct week-years (two calendars interleaved), then the early years are asked again:
+    every answer against the week-1 model / isocalendar.  Exercises whatever per-rule state the library keeps at and beyond its capacity."""
+    tier, rid = job
+    acc = Acc()
+    _, kind, spec, mk = _rule_obj(rid)
+    rule = mk()
+    cals = [CalendarSystem.iso, CalendarSystem.julian] + ([CalendarSystem.for_id("Hijri Civil-Base15")] if tier == "thorough" else [])
+    models = {c.id: wr.WeekModel((lambda y, c=c: dl.year_start(c, y)), c.min_year, c.max_year, dl.cal_range(c)[1]) for c in cals}
+    n_years = 1300 if tier == "quick" else 4200
+    passes = [("first-pass", range(2, 2 + n_years)), ("re-ask-early", range(2, 80)), ("re-ask-late", range(n_years - 60, 2 + n_years)), ("re-ask-early-again", range(2, 40))]
+    for pname, years in passes:
+        for y in years:
+            for cal in cals:
+                for n in (dl.year_start(cal, y), dl.year_end(cal, y)):
+                    d = dl.from_daynum(n, cal)
+                    acc.count(states=1, transitions=1, evaluations=2)
+                    exp = models[cal.id].locate(n, d.year, spec)
+                    got = _call(lambda: (rule.get_week_year(d), rule.get_week_of_week_year(d)))
+                    if isinstance(got, _Raised) or got != exp:
+                        acc.violation("C16/%s/long-history/%s/%s" % (cal.id, kind, pname), "%s (one shared rule object, pass %s) on %s %s gives %r, week-1 definition gives %r" % (
+                            rid, pname, cal.id, dl.ymd(d), got.e if isinstance(got, _Raised) else got, exp), {"kind": "history", "rule": rid, "calendar": cal.id, "date": dl.ymd(d), "pass": pname})
+                    elif rid == "iso" and cal.id == "ISO" and tuple(_dt.date(d.year, d.month, d.day).isocalendar())[:2] != got:
+                        acc.violation("C16/ISO/long-history/iso/isocalendar", "ISO rule on %s gives %r, isocalendar differs" % (dl.ymd(d), got), {"kind": "history", "rule": rid, "calendar": "ISO", "date": dl.ymd(d), "pass": pname})
+                    else:
+                        acc.outcome("history:%s" % pname)
+    acc.sample({"part": "long-history", "rule": rid, "distinct_week_years_per_rule_object": n_years * len(cals), "passes": [p[0] for p in passes]})
+    acc.note("classes", ["history/%s/%s" % (rid, p[0]) for p in passes])
+    return acc
+
+
 # ------------------------------------------------------------------------------------------------ navigation
 def nav_dates(cal, tier):
     lo, hi = dl.cal_range(cal)
@@ -440,6 +474,7 @@ def run(ctx):
     else:
         iso_jobs = [("quick", y, min(10000, y + 625), False) for y in range(1, 10000, 625)] + [("quick", y, y + 50, True) for y in range(1800, 2200, 50)]
     part("iso-stdlib", w_iso_stdlib, iso_jobs)
+    part("long-history", w_long_history, [(tier, r) for r in ("iso", "reg-min1-SUNDAY", "bcl-FIRST_FULL_WEEK-MONDAY")])
     part("navigation", w_navigation, [(cid, tier) for cid, _ in cals])
     iso = CalendarSystem.iso
     ny = set(range(1800, 2200)) | {iso.min_year, iso.min_year + 1, -1, 0, 1, 2, 9998, iso.max_year}
@@ -475,6 +510,8 @@ def replay(rec):
         y = case["date"][0]
         ys = [yy for yy in (y, y + 1) if cal.min_year <= yy <= cal.max_year]
         return key in w_weekyear((case["calendar"], "quick", [case["rule"]], ys, True)).violations
+    if kind == "history":
+        return key in w_long_history((rec.get("tier", "quick"), case["rule"])).violations
     if kind == "nth":
         return key in w_nth([case["year"]]).violations
     if kind == "nav":
